@@ -6,10 +6,11 @@
                                  answers `model=chunks=<hex>,… spec=eq|ne`: `spec` = the chunks satisfy `Delivers` (Spec/Lex.lean)
                                  for the text minus CRs (sr, rf, inc, line) / the text itself (stdin) / its lines each with
                                  a '\n' (rl) — evaluated, not assumed.
+    lexbuf                       the generated buffer size the model uses (`Gen.LEX_BUFFER`), `chunkMax`, `recordedMax`
     rdp <reader> [<hex>]         for the program-behaviour families: the sizes of the model reader's chunks at 1023 and
                                  their concatenation, + the finding region: `model=<n,n,…|->/<hexflat> [kf=…]`
     tok <hex> <reader>           the command of round C13 (was in Main.lean, block C13; moved here unchanged) + for every case
-                                 in which the reader delivers exactly TWO chunks `[a, b]` (text ≤ 600 bytes): ` note=<safe|unsafe>:<eq|ne>` —
+                                 in which the reader delivers exactly TWO chunks `[a, b]` (text ≤ 600 bytes): ` note=<safe|unsafe>:<eq|ne>:<2|n>` (`:n` = three chunks or more, `safeCuts`) —
                                  `safeSplit a b` and whether the RAW token sequences `lexChunks [a,b]`, `lexWhole (a++b)` are
                                  equal (the check asserts safe ⇔ eq on NUL-free cases: the unproved direction is tested)
 -/
@@ -40,9 +41,11 @@ def readerChunks (name : String) (max : Nat) (text : Bytes) : Option (List Bytes
 def deliversB (max : Nat) (chunks : List Bytes) (expected : Bytes) : Bool :=
   chunks.flatten == expected && chunks.all fun c => !c.isEmpty && c.length ≤ max
 
-def regionOf (dropsCr : Bool) (text : Bytes) (chunks : List Bytes) : String :=
+/-- The region of the recorded findings. `chunks` = what the model reader delivers with the CODE's buffer size,
+`chunksRec` = with the size the finding was recorded for (1023): "unaligned" only when both are. -/
+def regionOf (dropsCr : Bool) (text : Bytes) (chunks chunksRec : List Bytes) : String :=
   if !noNul text then " kf=C13.nul_truncates_chunk"
-  else if !aligned chunks then " kf=C13.unaligned_chunk_splits_token"
+  else if !aligned chunks && !aligned chunksRec then " kf=C13.unaligned_chunk_splits_token"
   else if dropsCr && loneCr text then " kf=C13.reader_drops_lone_cr"
   else ""
 
@@ -56,35 +59,36 @@ def handleRdc (reader : String) (maxw : String) (hex : String) : String :=
 
 def handleRdp (reader : String) (hex : String) : String :=
   let text := bytesOfHex hex
-  match readerChunks reader chunkMax text with
-  | none => "bad-reader"
-  | some (cs, _) =>
+  match readerChunks reader chunkMax text, readerChunks reader recordedMax text with
+  | some (cs, _), some (csRec, _) =>
     let sizes := if cs.isEmpty then "-" else ",".intercalate (cs.map fun c => toString c.length)
-    "model=" ++ sizes ++ "/" ++ hexOfBytes cs.flatten ++ regionOf (reader != "stdin" && reader != "rl") text cs
+    "model=" ++ sizes ++ "/" ++ hexOfBytes cs.flatten ++ regionOf (reader != "stdin" && reader != "rl") text cs csRec
+  | _, _ => "bad-reader"
 
 def tokStr (ts : List Tok) : String :=
   "toks=" ++ ",".intercalate (ts.map fun t => toString t.code ++ ":" ++ hexOfBytes t.text)
 
+def fragsAt (mx : Nat) (reader : String) (text : Bytes) : List Bytes :=
+  if reader == "sr" then lineReader mx text
+  else if reader.startsWith "lines:" then
+    lineSplit (Nat.max 1 (Nat.min ((reader.drop 6).toString.toNat?.getD 0) mx)) text
+  else if reader == "-" then fragReaderAt mx [] text
+  else fragReaderAt mx ((reader.splitOn ",").map fun w => w.toNat?.getD 1) text
+
 def handleTok (hex reader : String) : String :=
   let text := bytesOfHex hex
   let isSr := reader == "sr"
-  let frags : List Bytes :=
-    if isSr then lineReader chunkMax text
-    else if reader.startsWith "lines:" then
-      lineSplit (Nat.max 1 (Nat.min ((reader.drop 6).toString.toNat?.getD 0) chunkMax)) text
-    else if reader == "-" then fragReader [] text
-    else fragReader ((reader.splitOn ",").map fun w => w.toNat?.getD 1) text
+  let frags := fragsAt chunkMax reader text
   let specText := if isSr then crlfToLf text else text
-  let kf :=
-    if !noNul text then " kf=C13.nul_truncates_chunk"
-    else if !aligned frags then " kf=C13.unaligned_chunk_splits_token"
-    else if isSr && loneCr text then " kf=C13.reader_drops_lone_cr"
-    else ""
+  let kf := regionOf isSr text frags (fragsAt recordedMax reader text)
   -- (texts up to 600 bytes: keeps the driver's time on the long every-position corpora where it was)
   let note := if text.length > 600 then "" else match frags with
+    | [] => ""
+    | [_] => ""
     | [a, b] => " note=" ++ (if safeSplit a b then "safe" else "unsafe") ++ ":" ++
-        (if lexChunks [a, b] == lexWhole (a ++ b) then "eq" else "ne")
-    | _ => ""
+        (if lexChunks [a, b] == lexWhole (a ++ b) then "eq" else "ne") ++ ":2"
+    | _ => " note=" ++ (if safeCuts frags then "safe" else "unsafe") ++ ":" ++
+        (if lexChunks frags == lexWhole frags.flatten then "eq" else "ne") ++ ":n"
   "model=" ++ tokStr (popStream true frags) ++ " spec=" ++ tokStr (specStream true specText) ++ kf ++ note
 
 def handle (words : List String) : Option String :=
@@ -95,6 +99,7 @@ def handle (words : List String) : Option String :=
   | ["rdc", reader, max] => some (handleRdc reader max "")
   | ["rdp", reader, hex] => some (handleRdp reader hex)
   | ["rdp", reader] => some (handleRdp reader "")
+  | ["lexbuf"] => some ("lexbuf=" ++ toString Gen.LEX_BUFFER ++ " chunk=" ++ toString chunkMax ++ " recorded=" ++ toString recordedMax)
   | _ => none
 
 end BlocV.DrvC13
